@@ -184,12 +184,12 @@ def run_annotate(case):
                                 skip_existing=case["f"][4] == "1", merge_copyrights=case["f"][2] == "1", replace=case["f"][3] == "1",
                                 out=out, **kw)
         msg = out.getvalue()
-        with open(target, "r", encoding="utf-8", newline="") as fp:
-            after = fp.read()
         if "Skipped file" in msg:
             return "S"
         if rc:
             return "F:commentCreate" if "Could not create comment" in msg else "F:missingInfo"
+        with open(target, "r", encoding="utf-8", newline="") as fp:
+            after = fp.read()
         return "W:" + enc(after)
 
 
